@@ -41,6 +41,7 @@ fn run_line(line: &str) -> String {
         "ILV" => http::interleave(&ws[1..]),
         "DBG" => dbg::run(&ws[1..]),
         "DBGPH" => dbg::dbgph(&ws[1..]),
+        "DBGERR" => dbg::dbgerr(&ws[1..]),
         _ => proto::BAD.into(),
     }
 }
